@@ -128,10 +128,17 @@ m("C02", "proof",
   "idle, the destination file equal to the source file, every other path untouched, exactly one successful "
   "Transaction-Finished, nothing queued, no fault callback, no exception (induction over the tiles with the "
   "invariant `Receiving`). Together with C07 (the sender emits exactly that stream) this is the fault-free "
-  "delivery theorem for unacknowledged mode without closure. Acknowledged mode, closure and arbitrary pacing "
-  "are explored (implementation and model), not proved.",
-  "Lean 4 theorem by induction over tiles (composition of C07 and the receiver model) + exploration of pacing",
-  "§6 C02", ["C02_pacing (any fair interleaving) and the acknowledged/closure variants are exploration-level"])
+  "delivery theorem for unacknowledged mode without closure. C02_ack_delivery: the same, with the same "
+  "generality, for ACKNOWLEDGED mode (closure flag arbitrary): after the EOF exactly one ACK (EOF) is queued; "
+  "the next call verifies the checksum, tells the user, queues exactly one Finished PDU (No error, Data "
+  "complete, File retained) and waits; the sender's ACK (Finished) leaves the receiver idle with the file equal "
+  "to the source file. The sender's half of the closing handshake: C02_source_eof_acked, C02_source_finished, "
+  "C02_source_completion. Unacknowledged mode with closure requested, the composition of both handlers into "
+  "one run and arbitrary fair pacing are explored (implementation and model), not proved.",
+  "Lean 4 theorems by induction over tiles + forward simulation of the closing handshake (composition of C07 "
+  "and the receiver model) + exploration of pacing",
+  "§6 C02, §11", ["arbitrary fair pacing, unacknowledged mode with closure and the two-handler composition are "
+                  "exploration-level"])
 m("C03", "other",
   "acknowledged-mode end-to-end sessions with K in 1..3 faults (drop, duplicate, delay/reorder of any PDU in "
   "either direction) and all expiration limits > K; after the faults the link is quiet and timers keep "
@@ -151,9 +158,20 @@ m("C04", "proof",
   "the limit re-sends exactly one EOF / one Finished / the whole NAK sequence and adds one to the counter; an "
   "expiry at the limit declares the limit fault and re-sends nothing; progress resets; a limit fault during the "
   "cancel exchange abandons (with C14); C04_expiry_count: the fault falls on expiry number limit - c, for a "
-  "fresh procedure the limit-th. The bound of 2N expiries composes these lemmas (C04_silent_peer_bound).",
-  "Lean 4 theorems (one-step contracts of the retry procedures + counting lemma) + scenario enumeration",
-  "§6 C04", ["the iteration over expiries is composed from one-step theorems and a counting lemma"])
+  "fresh procedure the limit-th. ITERATION OVER TIME, by induction on the list of expiry times (any times at "
+  "which the restarted timer has run out, PDUs retrieved in between): k expiries below the limit re-send "
+  "exactly k PDUs (EOF / Finished / NAK sequence), add exactly k to the counter and change nothing else "
+  "(C04_source_expiries_below_limit, C04_dest_expiries_below_limit, C04_nak_expiries_below_limit); the limit "
+  "fault is declared exactly at the N-th consecutive expiry, never earlier or later "
+  "(C04_*_limit_exactly_at_Nth); and C04_dest_silent_peer_idle_after_2N: with the default table a receiver "
+  "whose peer is silent re-sends N-1 times, cancels at the N-th expiry (nested call queues the Finished "
+  "(cancel) PDU and restarts the procedure, C04_dest_cancel_completes), re-sends N-1 times, abandons at the "
+  "N-th: idle, exactly 2(N-1)+1 PDUs after the original, none afterwards.",
+  "Lean 4 theorems (one-step contracts + induction over expiry times + composition to the 2N bound) + "
+  "scenario enumeration",
+  "§6 C04, §11", ["the 2N composition is proved for the receiver's Finished procedure; for the sender and the NAK "
+                  "procedure the N-th-expiry theorems are proved and the hand-over to the cancellation exchange "
+                  "is the one-step C14 lemmas"])
 m("C05", "proof",
   "destination sessions with arbitrary File Data (any offsets, overlaps, duplicates, beyond EOF, before "
   "Metadata), EOFs anywhere, cancel requests, rejected writes, several transactions per handler, random fault "
@@ -234,8 +252,13 @@ m("C14", "proof",
   "that kind, nothing else (C14_dest_ignore, C14_source_ignore); cancel = one callback, transaction cancelled "
   "with that condition (C14_dest_cancel, C14_source_cancel); abandon = one callback, handler idle "
   "(C14_dest_abandon, C14_source_abandon); the C04 carve-out (C14_*_fault_in_cancel_exchange); no callback "
-  "without a transaction id (C14_*_no_callback_without_tid).",
-  "Lean 4 theorems (dispatch of _declare_fault over the table) + differential correspondence", "§6 C14")
+  "without a transaction id (C14_*_no_callback_without_tid). FOR EVERY HISTORY: while the table is T, after any "
+  "sequence of public calls with any PDUs, returning or raising, every fault callback delivered is of the kind "
+  "T configures for its condition (or the abandon of the cancellation-exchange rule) — no other callback kind "
+  "ever fires (C14_dest_callbacks_follow_table, C14_source_callbacks_follow_table: whole-FSM invariant, "
+  "generated lemmas for every model method, Lemmas/Inv*Faults.lean).",
+  "Lean 4 theorems (dispatch of _declare_fault over the table; whole-FSM invariant over every call sequence) + "
+  "differential correspondence", "§6 C14, §11")
 m("C15", "proof",
   "all suites with random indication switches (2^4 settings per side), message-to-user lists incl. "
   "originating-id and proxy-put-response messages, faulty and cancelled transfers",
